@@ -460,7 +460,7 @@ struct World {
 };
 
 static bool graphSiteFilter(const char* s) {
-  return poolproj::siteFilter(s) || (s[0] == 'G' && s[1] == 'r');
+  return poolproj::siteFilter(s) || (s[0] == 'G' && s[1] == 'r' && s[2] != 'a'); // Gr* but not the allocator's Grab* sites
 }
 
 static bool needsPool(const Program& p, int defaultExec) {
